@@ -4,6 +4,12 @@ import Ivg.Props.C01
 import Ivg.Gen.Tie.DrawOps
 import Ivg.Gen.Tie.EncodeErrors
 import Ivg.Gen.Tie.Magic
+import Ivg.Gen.Tie.Code.Encoder
+import Ivg.Gen.Tie.Code.Encoder2
+import Ivg.Gen.Tie.Code.Encoder3
+import Ivg.Gen.Tie.Code.Encoder4
+import Ivg.Gen.Tie.Code.Encoder5
+import Ivg.Gen.Tie.Code.Encoder6
 import Ivg.Obligations
 /-!
 # C10 — the Encoder reports an error exactly when the call protocol was violated
@@ -188,4 +194,63 @@ end Ivg.Props.C10
   Ivg.Props.C10.reset_clears_error, Ivg.Props.C10.zero_value_is_default_reset,
   Ivg.Props.C10.zero_value_lod_deviation, Ivg.Props.C10.violation_free_decodes,
   Ivg.Props.C10.violation_free_open_decodes, Ivg.Props.C10.automaton_iff_proto,
-  Ivg.Gen.Tie.encodeErrors_tie, Ivg.Gen.Tie.drawOps_tie, Ivg.Gen.Tie.magic_tie]
+  Ivg.Gen.Tie.encodeErrors_tie, Ivg.Gen.Tie.drawOps_tie, Ivg.Gen.Tie.magic_tie,
+  -- regenerated code (translator): the whole encode.Encoder (every method except SetNReg) = the model's Encoder.step, through the representation encOf / WFEnc
+  Ivg.Gen.Tie.drawOps_code_tie_all,
+  Ivg.Gen.Tie.drawOps_code_tie,
+  Ivg.Gen.Tie.errDrawingOpsUsedInStylingMode_code_tie,
+  Ivg.Gen.Tie.errInvalidSelectorAdjustment_code_tie,
+  Ivg.Gen.Tie.errInvalidIncrementingAdjustment_code_tie,
+  Ivg.Gen.Tie.errStylingOpsUsedInDrawingMode_code_tie,
+  Ivg.Gen.Tie.encodeError_Error_code_tie,
+  Ivg.Gen.Tie.positiveInfinity_code_tie_enc,
+  Ivg.Gen.Tie.negativeInfinity_code_tie_enc,
+  Ivg.Gen.Tie.appendDefaultMetadata_code_tie,
+  Ivg.Gen.Tie.cSel_code_tie,
+  Ivg.Gen.Tie.nSel_code_tie,
+  Ivg.Gen.Tie.lOD_code_tie,
+  Ivg.Gen.Tie.checkModeStyling_code_tie,
+  Ivg.Gen.Tie.setCSel_code_tie,
+  Ivg.Gen.Tie.setNSel_code_tie,
+  Ivg.Gen.Tie.setLOD_code_tie,
+  Ivg.Gen.Tie.encoder_startPath_code_tie,
+  Ivg.Gen.Tie.setCReg_code_tie,
+  Ivg.Gen.Tie.flushDrawOps_code_tie,
+  Ivg.Gen.Tie.draw_code_tie,
+  Ivg.Gen.Tie.draw_code_tie',
+  Ivg.Gen.Tie.encoder_absHLineTo_code_tie,
+  Ivg.Gen.Tie.encoder_relHLineTo_code_tie,
+  Ivg.Gen.Tie.encoder_absVLineTo_code_tie,
+  Ivg.Gen.Tie.encoder_relVLineTo_code_tie,
+  Ivg.Gen.Tie.encoder_absLineTo_code_tie,
+  Ivg.Gen.Tie.encoder_relLineTo_code_tie,
+  Ivg.Gen.Tie.encoder_absSmoothQuadTo_code_tie,
+  Ivg.Gen.Tie.encoder_relSmoothQuadTo_code_tie,
+  Ivg.Gen.Tie.encoder_closePathAbsMoveTo_code_tie,
+  Ivg.Gen.Tie.encoder_closePathRelMoveTo_code_tie,
+  Ivg.Gen.Tie.encoder_absQuadTo_code_tie,
+  Ivg.Gen.Tie.encoder_relQuadTo_code_tie,
+  Ivg.Gen.Tie.encoder_absSmoothCubeTo_code_tie,
+  Ivg.Gen.Tie.encoder_relSmoothCubeTo_code_tie,
+  Ivg.Gen.Tie.encoder_absCubeTo_code_tie,
+  Ivg.Gen.Tie.encoder_relCubeTo_code_tie,
+  Ivg.Gen.Tie.encoder_closePathEndPath_code_tie,
+  Ivg.Gen.Tie.arcTo_code_tie,
+  Ivg.Gen.Tie.absArcTo_code_tie,
+  Ivg.Gen.Tie.relArcTo_code_tie,
+  Ivg.Gen.Tie.bytes_code_tie,
+  Ivg.Gen.Tie.setCSel_code_tie_state,
+  Ivg.Gen.Tie.setNSel_code_tie_state,
+  Ivg.Gen.Tie.setCReg_code_tie_state,
+  Ivg.Gen.Tie.setLOD_code_tie_state,
+  Ivg.Gen.Tie.encoder_startPath_code_tie_state,
+  Ivg.Gen.Tie.cSel_code_tie_state,
+  Ivg.Gen.Tie.nSel_code_tie_state,
+  Ivg.Gen.Tie.lOD_code_tie_state,
+  Ivg.Gen.Tie.draw_code_tie_state,
+  Ivg.Gen.Tie.bytes_code_tie_state,
+  Ivg.Gen.Tie.reset_code_tie,
+  Ivg.Gen.Tie.reset_code_tie_state,
+  Ivg.Gen.Tie.wfEnc_init,
+  Ivg.Gen.Tie.wfEnc_step,
+  Ivg.Gen.Tie.wfEnc_runOps]
